@@ -371,6 +371,14 @@ class World:
             # "~/<dir>": HOME points into the simulated file system for the duration of the run
             self.cache_dir = "/SIMFS/home/" + k.get("cache_dir", "cache")
             self.cache_arg = "~/" + k.get("cache_dir", "cache")
+        self.cache_real_dir = None
+        if k.get("cache_dir_link") and not self.cwd:
+            # the cache directory is reached through a symbolic link (~/.cache -> /scratch/...): the user names the
+            # link, the files live elsewhere
+            self.cache_real_dir = "/SIMFS/volumes/scratch0/cachedata"
+            self.fs.h_mkdirs(self.cache_real_dir)
+            self.fs.h_mkdirs(posixpath.dirname(self.cache_dir))
+            self.fs.h_symlink(self.cache_real_dir, self.cache_dir)
         for i, kd in enumerate(self.keys):
             p = self.cache_dir + "/" + cache_file_name(kd)
             self.key_of_path[p] = i
@@ -388,6 +396,8 @@ class World:
         self.oracle = None
         self.stats = {"ops": 0, "gets": 0, "crashes": 0, "reopens": 0, "fired": {}, "planned": {},
                       "zombie_ops": 0, "evictions": 0, "hits": 0, "misses": 0, "probes": {}}
+        if self.cache_real_dir:
+            self.stats["probes"]["cache_dir_is_symlink"] = 1
         self.results = []  # (op id, normalised outcome) of every GET: what the caller saw
         self.abstract_states = set()
         self.miss_log = {}
@@ -848,8 +858,24 @@ class World:
         """name -> (kind, size, atime, mtime, bytes) for everything directly or indirectly in the cache dir."""
         out = {}
         for p, kind, size, at, mt, data, ino, gen in self.fs.h_tree(self.cache_dir):
+            if kind == "l":
+                b = posixpath.basename(p)
+                if b.startswith("cachefile_") and b.endswith("_cachefile") and posixpath.dirname(p) == self.cache_dir:
+                    # a cache file that is a symbolic link (a user pre-seeded the cache with a link to their own
+                    # copy): reported as stat() sees it - size, stamps, bytes and identity of the file it names
+                    t = self.fs.h_node(p)
+                    if t is not None and t.kind == "f":
+                        out[p] = ("f", len(t.data), t.atime, t.mtime, bytes(t.data), t.ino, t.gen)
+                        continue
             out[p] = (kind, size, at, mt, data, ino, gen)
         return out
+
+    def canon(self, p):
+        """a path inside the real directory behind a symbolic-link cache directory, named through the link"""
+        real = getattr(self, "cache_real_dir", None)
+        if real and isinstance(p, str) and p.startswith(real + "/"):
+            return self.cache_dir + p[len(real):]
+        return p
 
     def other_limit(self):
         try:
@@ -1149,6 +1175,8 @@ class World:
         obs.other_limit = self.other_limit()
         obs.busy_after = self.busy_workers()
         obs.unlinks = self.fs.unlink_log[obs.unlink_from:]
+        if self.cache_real_dir:
+            obs.unlinks = [(self.canon(u[0]),) + tuple(u[1:]) for u in obs.unlinks]
         obs.fetches = self.fetchlog.in_op(op["id"])
         obs.back_in_op = self.clock.backward_steps - obs.back_before
         obs.validator_calls = self.validator_calls[obs.val_from:]
@@ -1237,6 +1265,9 @@ class World:
                 # paths relative to the working directory are as good as absolute ones
                 res = [posixpath.normpath(posixpath.join(self.cwd, p)) if isinstance(p, str) and not p.startswith("/") else p
                        for p in res]
+            if self.cache_real_dir and isinstance(res, list):
+                # the same file named through the real directory instead of through the link is as good
+                res = [self.canon(p) for p in res]
             obs.result = res
         elif kind == "OTHER_GET":
             # a request to the second named cache; must not touch the first cache's directory
@@ -1279,6 +1310,30 @@ class World:
         elif kind == "FOREIGN":
             import os
             name = self.resolve_foreign(op["name"])
+            if op["name"].startswith("linkentry:"):
+                # the user pre-seeds the cache with a symbolic link: <cache file name of key i> -> their own copy
+                # of the object (complete, current bytes) kept next to it.  The link is a cache file, the copy is
+                # the user's: removing/evicting the entry must remove the link, never the copy.
+                i = int(op["name"].split(":@k")[1]) % len(self.keys)
+                link = self.path_of_key[i]
+                target = self.cache_dir + "/my_copy_of_k%d.bin" % i
+                obs.foreign_path = target
+                obs.foreign_bytes_only = True  # using the entry refreshes the recency of the file the link names
+                if (not self.fs.h_exists(link) and not os.path.islink(link) and not self.fs.h_exists(target)
+                        and self.store.current(self.keys[i]["res"]) is not None and self.keys[i]["scheme"] != "nosuch"):
+                    with open(target, "wb") as f:
+                        f.write(self.expected_bytes(i))
+                    os.symlink(posixpath.basename(target), link)
+                    self.stats["probes"]["cache_entry_preseeded_as_symlink"] = self.stats["probes"].get("cache_entry_preseeded_as_symlink", 0) + 1
+                return
+            if op["name"].startswith("link:"):
+                # a user's own symbolic link in the cache directory ("latest" -> a cache file, or dangling)
+                _x, lname, tgt = op["name"].split(":", 2)
+                p = self.cache_dir + "/" + lname
+                obs.foreign_path = p
+                if not self.fs.h_exists(p) and not os.path.islink(p):
+                    os.symlink(self.resolve_foreign(tgt), p)
+                return
             p = self.cache_dir + "/" + name
             obs.foreign_path = p
             if "/" in name:
